@@ -442,7 +442,7 @@ fn canaries(seed: u64, bases: &Bases) -> String {
         let (c, _) = rm::edit(&mut rng, &a);
         let (b2, _) = rm::edit(&mut rng, &b);
         for (x, y, must) in [(&a, &b, true), (&a, &c, true), (&b, &b2, true), (&b2, &c, false), (&c, &b, false), (&a, &a, true)] {
-            if !rm::is_contracted_form(y) || !y.check().is_empty() { bad("edited state left the domain"); }
+            if !rm::is_edit_domain(y) || !y.check().is_empty() { bad("edited state left the domain"); }
             for deep in [false, true] {
                 match rm::ref_diff(x, y, deep) {
                     Err(e) => if must { bad(&format!("R-diff refuses a parent/child pair: {e}")) },
